@@ -214,6 +214,15 @@ Definition exp_consts : val :=
   VTup [VTup (e ++ [VInt 0]); VInt 0; VTup e; VTup (lo ++ [VInt 0]); VTup (hi ++ [VInt 0]); VTup lo; VTup hi;
         VInt SEC_MIN; VInt SEC_MAX].
 
+(** the [Default] values: NaiveDate is the day 1970-01-01 (day number EPOCH_DN), NaiveTime is midnight,
+    NaiveDateTime / DateTime<Utc> / DateTime<FixedOffset> are the epoch (instant 0, timestamp 0), the zoned
+    ones with offset 0 *)
+Definition exp_defaults : val :=
+  let e := enc_fields EPOCH_DN 0 0 in
+  let '(y, o) := yo_of_dn EPOCH_DN in
+  VTup [VTup [VInt y; VInt o]; VTup [VInt 0; VInt 0]; VTup e; VTup (e ++ [VInt 0]); VTup (e ++ [VInt 0]);
+        VInt 0; VInt 0].
+
 Definition judge (op : bytes) (args : list val) (out : val) : verdict :=
   let two (f : val -> val -> val -> verdict) := match args with [a; b] => f a b out | _ => JSkip end in
   let one (f : val -> val -> verdict) := match args with [a] => f a out | _ => JSkip end in
@@ -256,4 +265,6 @@ Definition judge (op : bytes) (args : list val) (out : val) : verdict :=
   else if op_is op "ts.tosys" then j_tosys args out
   else if op_is op "ts.consts" then
     match args with [] => judge_eq exp_consts out | _ => JSkip end
+  else if op_is op "ts.defaults" then
+    match args with [] => judge_eq exp_defaults out | _ => JSkip end
   else JSkip.
